@@ -55,25 +55,8 @@ func (v *Vue) evalTemplate(ctx VueContext, nodes []*html.Node, componentData map
 		}
 
 		// Validate :required attributes
-		var requiredAttrs []string
-		for _, attr := range node.Attr {
-			if attr.Key == ":require" || attr.Key == ":required" {
-				// Support CSV format: :required="name,label,type"
-				fields := strings.Split(attr.Val, ",")
-				for _, field := range fields {
-					field = strings.TrimSpace(field)
-					if field != "" {
-						requiredAttrs = append(requiredAttrs, field)
-					}
-				}
-			}
-		}
-
-		// Check if all required attributes are provided
-		for _, required := range requiredAttrs {
-			if _, exists := componentData[required]; !exists {
-				return nil, fmt.Errorf("required attribute '%s' not provided", required)
-			}
+		if err := checkRequired(node, componentData); err != nil {
+			return nil, err
 		}
 
 		// Evaluate v-html if attribute is provided
@@ -181,4 +164,24 @@ func (v *Vue) evalTemplate(ctx VueContext, nodes []*html.Node, componentData map
 
 	// If no template tag, return nodes as-is
 	return nodes, nil
+}
+
+// checkRequired validates the :require/:required CSV lists of a template tag against the given data.
+func checkRequired(node *html.Node, componentData map[string]any) error {
+	for _, attr := range node.Attr {
+		if attr.Key != ":require" && attr.Key != ":required" {
+			continue
+		}
+		// Support CSV format: :required="name,label,type"
+		for _, field := range strings.Split(attr.Val, ",") {
+			field = strings.TrimSpace(field)
+			if field == "" {
+				continue
+			}
+			if _, exists := componentData[field]; !exists {
+				return fmt.Errorf("required attribute '%s' not provided", field)
+			}
+		}
+	}
+	return nil
 }
